@@ -55,7 +55,8 @@ def c05_worker(item):
         first = r.randint(0, ws.fail_at)
     goal = r.choice(["-a", "-a", "-a", "count"])
     count = len(ws.patches) if goal == "-a" else r.randint(1, len(ws.patches))
-    args = base_args(threads=threads, backup=backup, verbosity=verbosity) + ["push"] + (["-a"] if goal == "-a" else [str(count)])
+    bcount = r.choice([None, None, None, 0, 1, 2, "all"])
+    args = base_args(threads=threads, backup=backup, backup_count=bcount, verbosity=verbosity) + ["push"] + (["-a"] if goal == "-a" else [str(count)])
     cfg_sig = {"driver": "seq" if threads == 1 else "par", "verbosity": verbosity or "default"}
     # a quarter of the runs name the working directory with -d (from another cwd) and / or keep the patches elsewhere (-p)
     use_d = r.random() < 0.25
